@@ -294,6 +294,19 @@ def gen_instance(rng, K, n):
     b = [Fraction(tg) - u for tg, u in zip(target, Ax)]
     if rng.random() < 0.3:
         b = [v + rng.choice([0, 0, 1, -1]) for v in b]
+    if rng.random() < 0.2:
+        # badly scaled but legal data: rows of linear cones in other units (powers of two keep float arithmetic exact); nothing
+        # may be dropped because it is small next to the largest entry of the matrix
+        i0 = 0
+        lin_rows = []
+        for t, k in K:
+            if t in ('0', '+'):
+                lin_rows += list(range(i0, i0 + k))
+            i0 += k
+        for i in lin_rows:
+            sc = rng.choice([Fraction(2) ** 36, Fraction(1, 2 ** 36), 1])
+            A[i] = [Fraction(v) * sc for v in A[i]]
+            b[i] = Fraction(b[i]) * sc
     c = [rng.randint(-3, 3) for _ in range(n)]
     pts = [x0] + [[v + Fraction(rng.choice([0, 0, 0, 1, -1]), rng.choice([1, 2])) for v in x0] for _ in range(8)] + \
           [[Fraction(rng.randint(-3, 3)) for _ in range(n)] for _ in range(3)]
